@@ -43,3 +43,16 @@ Example half_complex_instance_thm :
   fft Q8 q0 q1 qadd qmul qsub 1 (rpow Q8 q1 qmul qX 4) (fold_twist Q8 q0 q1 qadd qmul qopp 1 qX fex)
   = tab Q8 2 (fun k => ev Q8 q0 q1 qadd qmul qopp 4 (rpow Q8 q1 qmul qX (4 * k + 1)) fex).
 Proof. exact (half_complex_transform Q8 q0 q1 qadd qmul qsub qopp Q8_ring 1 qX qX_root fex). Qed.
+
+(* the automorphism X -> X^7 = X^-1 of Z[X]/(X^4+1) ("complex conjugation"): the hypotheses of the conjugate-symmetry theorems are met *)
+Definition qconj (a : Q8) : Q8 := let '(a0, a1, a2, a3) := a in (a0, - a3, - a2, - a1).
+Lemma qconj_add x y : qconj (qadd x y) = qadd (qconj x) (qconj y).
+Proof. destruct x as [[[? ?] ?] ?], y as [[[? ?] ?] ?]. unfold qconj, qadd. repeat (f_equal; try ring). Qed.
+Lemma qconj_mul x y : qconj (qmul x y) = qmul (qconj x) (qconj y).
+Proof. destruct x as [[[? ?] ?] ?], y as [[[? ?] ?] ?]. unfold qconj, qmul. repeat (f_equal; try ring). Qed.
+Lemma qconj_one : qconj q1 = q1. Proof. reflexivity. Qed.
+Lemma qconj_X : qconj qX = rpow Q8 q1 qmul qX (2 * 2 ^ 2 - 1). Proof. reflexivity. Qed.
+Example other_half_instance :
+  ev Q8 q0 q1 qadd qmul qopp 4 (rpow Q8 q1 qmul qX (4 * (2 ^ 1 - 0 - 1) + 3)) fex
+  = qconj (ev Q8 q0 q1 qadd qmul qopp 4 (rpow Q8 q1 qmul qX (4 * 0 + 1)) fex).
+Proof. exact (other_half_by_conjugation Q8 q0 q1 qadd qmul qsub qopp Q8_ring qconj qconj_add qconj_mul qconj_one 1 qX qX_root qconj_X fex 0 ltac:(cbn; lia)). Qed.
